@@ -370,6 +370,7 @@ def samemodel_rule(P, R):
 def run(P, R, tier):
     K = KN.get(P)
     samemodel_rule(P, R)
+    inertpair_rule(P, R)
     stepmix_rule(P, R)
     usereset_rule(P, R)
     models_rule(P, R)
@@ -672,3 +673,39 @@ def stepmix_rule(P, R):
                         file=g["file"], line=stmts[0][1], function=g["q"])
     if n < 12:
         R.anchor_missing(RULE, "only %d evaluations (reactions and run_as_cells expected)" % n)
+
+
+def inertpair_rule(P, R):
+    """"element amounts are conserved": for a precipitate_only phase model() parks the solid that is already there in unknown::inert_moles
+    (set_inert_moles) so that it cannot dissolve, and gives it back with unset_inert_moles before the results are saved.  The two calls
+    are a pair: on every path of model() from set_inert_moles to a return there must be an unset_inert_moles - also on the early return
+    of the Pitzer / SIT branch.  Without it xpp_assemblage_save stores only what precipitated in the step and the solid that was there
+    disappears."""
+    RULE = "C02.inertpair"
+    R.rule(RULE, "model(): every path from set_inert_moles to a return passes unset_inert_moles", minimum=1)
+    f = P.one("Phreeqc::model")
+    cfg = T.CFG(f)
+    sets = [i for i, nd in enumerate(cfg.nodes) if T.is_node(nd["n"]) and any(T.callee_name(c) == "set_inert_moles" for c in T.calls(nd["n"]))]
+    unsets = {i for i, nd in enumerate(cfg.nodes) if T.is_node(nd["n"]) and any(T.callee_name(c) == "unset_inert_moles" for c in T.calls(nd["n"]))}
+    if len(sets) != 1 or not unsets:
+        R.anchor_missing(RULE, "model(): set_inert_moles %d times, unset_inert_moles %d times" % (len(sets), len(unsets)))
+        return
+    seen, st, bad = set(), list(cfg.nodes[sets[0]]["succ"]), None
+    while st:
+        x = st.pop()
+        if x in seen or x in unsets:
+            continue
+        seen.add(x)
+        nd = cfg.nodes[x]
+        if T.is_node(nd["n"]) and nd["n"][0] == "Return":
+            bad = nd["line"]
+            break
+        if x == cfg.exit:
+            bad = f.get("endline", f["line"])
+            break
+        st.extend(nd["succ"])
+    if bad is None:
+        R.ok(RULE, "model", "unset_inert_moles on every path (%d sites)" % len(unsets))
+    else:
+        R.violation(RULE, "model", "model() can return at line %d after set_inert_moles without unset_inert_moles: the solid of a precipitate_only phase that was parked in "
+                    "inert_moles is not given back, the saved assemblage holds only what precipitated in the step" % bad, file=f["file"], line=bad, function=f["q"])
